@@ -327,6 +327,8 @@ func newRunEnv() *runEnv {
 			e.mu.Unlock()
 			return vRec{Name: "n"}, errSentinel
 		},
+		// a helper whose parameter is trusted HTML
+		"boldh": func(h template.HTML) template.HTML { return "<b>" + h + "</b>" },
 		// a Go-variadic helper
 		"vcount": func(xs ...interface{}) int { return len(xs) },
 		"id":     func(v interface{}) interface{} { return v },
